@@ -1,6 +1,15 @@
-"""C04 - see DESIGN.md section 5/C04.  Bounded stand-in (bounded/C04.py) of the property's
-contract on the real code; labelled bounded, never counted as proved."""
+"""C04 - continued simulation: absolute increasing time axis, piecewise-exact states.
+
+Deductive part (contracts/simulator.py): Simulator.simulate is proved to refuse a
+continuation exactly when the requested end is not later than the ABSOLUTE time already
+reached, and otherwise to record a segment that ends exactly at the requested absolute
+time (whatever the integrator's shifted clock), or to record exactly one failure;
+_handle_simulation_results and the integrator protocol enter through assumed contracts.
+Bounded part (bounded/C04.py): all operation histories up to length 3 against a
+closed-form piecewise oracle on the real Simulator."""
 from props._runner import run
 
 if __name__ == "__main__":
-    run("C04", "exploration", notes="C04: run-time contract on the real code over an enumerated small scope (bounded stand-in)")
+    run("C04", "proof", files=["simulator.py"],
+        notes="C04: refusal rule and absolute end time of Simulator.simulate proved; frame construction, time courses, overrides, "
+              "steady-state and the trajectories themselves are covered by the bounded stand-in only")
